@@ -727,6 +727,7 @@ func (l *c10Leader) Close() error {
 	return nil
 }
 func (l *c10Leader) Ping() error {
+	l.rec("Ping")
 	if l.pingOK {
 		return nil
 	}
@@ -771,7 +772,16 @@ func collectFollowerRounds() ([]c10Combo, []c10FObs) {
 		lc := &c10Leader{pingOK: k.p, reconnOK: k.r, regOK: k.g, connected: true}
 		sd.AssignLeader(servicediscovery.NewService(lc, "leader", 1))
 		sd.StartHeartbeat()
-		time.Sleep(5700 * time.Millisecond)
+		// the round starts 5 s after the start (hard-coded): wait for its ping, then for what follows it
+		for t0 := time.Now(); time.Since(t0) < 9*time.Second; time.Sleep(20 * time.Millisecond) {
+			lc.mu.Lock()
+			n := len(lc.calls)
+			lc.mu.Unlock()
+			if n > 0 {
+				break
+			}
+		}
+		time.Sleep(400 * time.Millisecond)
 		sd.StopHeartbeat()
 		lc.mu.Lock()
 		out[i].calls = append([]string{}, lc.calls...)
